@@ -377,6 +377,27 @@ func randomSystemHistory(r *rand.Rand, nops int) []SysAct {
 		h = append(h, SysAct{A: "Plain", C: outer}, SysAct{A: "Frag", F: 1, C: outer})
 	}
 	if r.Intn(4) == 0 {
+		// a failing render in between: a statement is rendered on its own, then another statement that references a path
+		// with the same base name FAILS to format (two adjacent identifiers), then the first is rendered again - the
+		// failed call must leave nothing behind that changes what the first one renders
+		pairs := [][2]string{{"x/d", "y/d"}, {"y/d", "x/d"}, {"math/rand", "crypto/rand"}, {"x/d", "z/d1"}}
+		pq := pairs[r.Intn(len(pairs))]
+		a := newCell()
+		h = append(h, SysAct{A: "NewQual", P: pq[0], N: sysSym(pq[0])})
+		h = append(h, SysAct{A: "AppDot", C: a, N: fresh()})
+		b := newCell()
+		h = append(h, SysAct{A: "NewQual", P: pq[1], N: sysSym(pq[1])})
+		h = append(h, SysAct{A: "AppId", C: b, N: fresh()})
+		first := r.Intn(2) == 0
+		if first {
+			h = append(h, SysAct{A: "Plain", C: a})
+		}
+		h = append(h, SysAct{A: "Plain", C: b}, SysAct{A: "Plain", C: a})
+		if r.Intn(2) == 0 {
+			h = append(h, SysAct{A: "Frag", F: 1, C: b}, SysAct{A: "Frag", F: 1, C: a}, SysAct{A: "Plain", C: a})
+		}
+	}
+	if r.Intn(4) == 0 {
 		// placeholders: a statement that renders nothing yet is made an operand (of a List, which has no tokens of its
 		// own, or of a call), the whole is observed, THEN the placeholder is filled and the whole is observed again
 		p := newCell()
